@@ -54,13 +54,16 @@ RECORD = [dict(binary="farm", n=T(3, 12), len=25, cfg="users=3,rdenoms=2,initlp=
 PROPS = {
     "C05": ModuleCheck("farm", "Farm.tla", "FarmTrace.tla", "FarmTrace.cfg", FARM_CLAUSES_C05,
                        FARM_MC, FARM_GEN, FARM_RND, scenarios=FARM_SCN,
-                       required=["unstake_ok", "stake_ok", "refund", "release", "payout"],
+                       required=["unstake_ok", "stake_ok", "refund", "release", "payout", "cp_stake"],
                        gen_cfg="users=2,rdenoms=1,initlp=3,initr=20,prec=10",
                        assumptions=["TLC 1.8, SANY, CommunityModules Json", "Go toolchain, cosmos-sdk x/bank",
                                     "harness projection functions", "unit scaling of LP amounts (DESIGN 4.2)"]),
     "C06": ModuleCheck("farm", "Farm.tla", "FarmTrace.tla", "FarmTrace.cfg", FARM_CLAUSES_C06,
                        FARM_MC, FARM_GEN, FARM_RND, scenarios=FARM_SCN,
-                       required=["refund", "release", "payout", "adjust_ok", "destroy_ok"],
+                       # cp_*: a governance-funded pool was created, staked in, paid out and refunded to the community
+                       # pool (scripted in scenarios/farm_gov_life.ndjson, so never missing unless the path broke)
+                       required=["refund", "release", "payout", "adjust_ok", "destroy_ok",
+                                 "cp_pass", "cp_payout", "cp_pool_refund"],
                        gen_cfg="users=2,rdenoms=1,initlp=3,initr=20,prec=10",
                        assumptions=["TLC 1.8, SANY, CommunityModules Json", "Go toolchain, cosmos-sdk x/bank",
                                     "harness projection functions", "unit scaling of LP amounts (DESIGN 4.2)"]),
